@@ -876,7 +876,7 @@ REFUSALS = {
         ("factor-type", TE, f"not isinstance(factor, numbers.Real) and not isinstance(factor, {SEQ})"),
         ("factor-length", VE, f"not isinstance(factor, numbers.Real) and isinstance(factor, {SEQ}) and len(factor) != self.ndim"),
         ("factor-elements", TE, f"not isinstance(factor, numbers.Real) and isinstance(factor, {SEQ}) and len(factor) == self.ndim "
-                                "and not isinstance(E, numbers.Real)"),
+                                "and any(not isinstance(e, numbers.Real) for e in factor)"),
         ("reference-type", TE, "reference_point is not None and not isinstance(reference_point, numbers.Real) and "
                                f"not isinstance(reference_point, {SEQ})"),
         ("reference-length", VE, "len(reference_point) != self.ndim"),
@@ -886,7 +886,7 @@ REFUSALS = {
     "region.Region.translate": [
         ("vector-type", TE, f"not isinstance(vector, {SEQ})"),
         ("vector-length", VE, f"isinstance(vector, {SEQ}) and len(vector) != self.ndim"),
-        ("vector-elements", TE, "not isinstance(E, numbers.Number)"),
+        ("vector-elements", TE, "any(not isinstance(e, numbers.Number) for e in vector)"),
     ],
     "region.Region.rotate90": [
         ("distinct-axes", VE, "ax1 == ax2"),
